@@ -91,11 +91,12 @@ def scenario(draw):
         drivers.append([{"at_ms": draw(st.sampled_from([0, 5, 40])), "op": "sigint"}])
     if not sigint and all(p["kind"] in ("exc", "ret") for p in payloads if p["role"] == "failing"):
         # asyncio bystanders that absorb their first cancellation(s) and only then wind down (e.g. a suppressed CancelledError
-        # around an inner await). Only where cobald itself closes the runners: when the loop is torn down by a BaseException or
-        # an interrupt, asyncio's own teardown cancels once and such a payload never ends (DESIGN.md section 11)
+        # around an inner await). Only where cobald's own graceful close runs to its end: a second, loop-aborting event during
+        # that close (a SIGINT, or a BaseException raised inside an asyncio task) hands the rest to asyncio's teardown, which
+        # cancels once - with such a payload around that never ends on the unchanged tree (DESIGN.md section 11)
         for b in payloads:
             if b["role"] == "bystander" and b["flavour"] == "asyncio" and b.get("state") != "spinning" and draw(st.integers(0, 2)) == 0:
-                b["stubborn"] = draw(st.sampled_from([1, 1, 2]))
+                b["stubborn"] = draw(st.sampled_from([1, 1, 2, 4]))
     sc = {"runner": runner, "accept_delay": draw(accept_delay), "switchinterval": draw(switchinterval), "bound_s": BOUND,
           "linger_ms": 30, "payloads": payloads, "drivers": drivers, "sigint": sigint}
     if draw(st.integers(0, 4)) == 0 and len(payloads) <= 8:
